@@ -42,7 +42,8 @@ EPS_D = {False: Fraction(1, 10 ** 10), True: Fraction(2, 10 ** 5)}     # x64 / f
 EPS_O = {False: 1e-7, True: 2e-4}                                         # oracle (scipy vs tfp) tolerance
 CORPUS = os.path.join(common.VERIF, "harness", "corpus")
 
-FORCED = ["user", "free", "both", "norole", "transient", "transform", "mvnd", "weakdist", "nodist", "matrix", "distreg", "distreg"]
+FORCED = ["user", "free", "both", "norole", "transient", "transform", "auto", "auto", "npdist", "npdist", "inplace", "inplace",
+          "mvnd", "weakdist", "nodist", "matrix", "distreg", "distreg"]
 
 
 # ---------------------------------------------------------------------------------------------
@@ -57,6 +58,8 @@ def features(prog) -> list[str]:
         d = v["dist"]
         if d:
             fs.append("fam." + d["fam"])
+            if d.get("impl", "jax") != "jax":
+                fs.append("log_prob_returns." + {"np": "numpy", "pylike": "pyfloat_or_list", "npsub": "tfp_numpy_substrate"}[d["impl"]])
             if d["transient"]:
                 fs.append("transient_dist")
             if not d["per_obs"]:
@@ -75,6 +78,8 @@ def features(prog) -> list[str]:
             fs.append("role.both")
         if d and v["role"] == "none":
             fs.append("role.none")
+    if prog.get("add_mode") == "roots":
+        fs.append("inner_vars_reached_as_inputs_only")
     if prog["free"]:
         fs.append("free_dist")
     for w, u in prog["user"].items():
@@ -107,7 +112,7 @@ def run_program(prog: dict, steps: list[dict], pid, want_inputs=True, jit=False)
         cases.append({"pid": pid, "k": 0, "prog": prog, "positions": [], "mode": "build", "obs": strip_obs(o), "flip": flip})
         prev = o["state"]
         for k, st in enumerate(steps):
-            kit.apply_position(B, st["pos"], st["mode"] == "manual")
+            kit.apply_position(B, st["pos"], st["mode"] == "manual", inplace=st["mode"] == "inplace")
             o = kit.observe(B, iface, prev_state=prev, pos=st["pos"], want_inputs=want_inputs and not prog["f32"],
                             jit=jit and k == len(steps) - 1)
             cases.append({"pid": pid, "k": k + 1, "prog": prog, "positions": steps[:k + 1], "mode": st["mode"],
@@ -165,8 +170,11 @@ def generate(ctx):
             if force == "distreg":
                 prog = kit.gen_distreg(rnd, force)
             else:
-                prog = kit.gen_hier(rnd, rnd.randint(2, 7), force)
-            plan.append((prog, kit.gen_positions(rnd, prog, rnd.choice([1, 2, 3])), "forced." + force))
+                prog = kit.gen_hier(rnd, rnd.randint(2, 7), None if force == "inplace" else force)
+                if force == "inplace":
+                    prog["f32"] = rep % 2 == 1
+            plan.append((prog, kit.gen_positions(rnd, prog, rnd.choice([2, 3]) if force == "inplace" else rnd.choice([1, 2, 3]), force),
+                         "forced." + force))
     while len(plan) < nprog:
         if rnd.random() < 0.15:
             prog = kit.gen_distreg(rnd)
@@ -196,7 +204,8 @@ def generate(ctx):
     ctx.cov["rule"] = ("one case = one real lsl.Model at one assignment of values; distinct = distinct (program, sequence of "
                        "positions); forced strata (each >= 2 programs per run): user-supplied nodes, free distribution node, both "
                        "flags, no flag, TransientDist, transformed variable, degenerate MVN, weak variable with distribution, "
-                       "explicit NoDist node, matrix-valued observation, DistRegBuilder")
+                       "explicit NoDist node, matrix-valued observation, auto_transform=True, log_prob returning NumPy / Python float / "
+                       "list-with-sum / tfp NumPy substrate, in-place modified buffer and equal-but-fresh assignments, DistRegBuilder")
     for c in cases[:1] + [c for c in cases if c["prog"]["user"]][:1] + [c for c in cases if c["prog"]["kind"] == "distreg"][:1]:
         ctx.sample({"features": features(c["prog"]), "k": c["k"],
                     "reads": [{k: str(v) for k, v in r.items()} for r in (c["obs"]["reads"][:2] if c["obs"] else [])]})
